@@ -271,7 +271,7 @@ def pair_cases(lg, start, pre, owner_op, nthieves, limit=None, rng=None, sample=
 
 def random_case(rng, big=False):
     lg = rng.choice([0, 1, 1, 1, 2, 3])
-    start = rng.choice([0, 0, 0, 5, -3, 1000, -1])
+    start = rng.choice([0, 0, 0, 5, -3, 1000, -1, (1 << 31) - 2, (1 << 32) - 3, (1 << 16) - 1, -(1 << 31) + 1])
     nth = rng.choice([1, 1, 2, 2, 3])
     n0 = rng.randint(1, 14 if big else 9)
     tok = list(range(1, 60))
